@@ -16,9 +16,54 @@ BUDGET = {"quick": 420, "thorough": 3000}
 SAN = ("msan", "w32")
 
 
+def sweep_decoders(ctx, part, nparts):
+    """the decoders of C08 on exact-size input / output blocks: all octet strings of length <= 3 through the DER entry points and the
+    structure-aware seeds and mutants of props/c08.py through every fuzz target once (no campaign); only sanitizer reports count here,
+    the semantic oracles of the targets belong to C08"""
+    import subprocess, random, tempfile, shutil, sys
+    from harness import Fail
+    sys.path.insert(0, os.path.join(os.path.dirname(os.path.dirname(os.path.abspath(__file__))), "fuzz"))
+    import build_fuzz
+    from props import c08
+    d = build_fuzz.build_targets()
+    env = dict(os.environ, ASAN_OPTIONS="detect_leaks=0:abort_on_error=0:exitcode=77:allocator_may_return_null=1:malloc_limit_mb=512")
+
+    def judge(what, p):
+        out = p.stdout + p.stderr
+        if p.returncode != 0 and "AddressSanitizer" in out:
+            line = [l for l in out.splitlines() if "SUMMARY" in l or "ERROR: AddressSanitizer" in l]
+            inp = [l for l in out.splitlines() if "input[" in l]
+            raise Fail("%s: %s %s" % (what, line[0] if line else out[-300:], inp[0] if inp else ""))
+    p = subprocess.run([os.path.join(d, "fz_der_exhaust"), str(part * 256 // nparts), str((part + 1) * 256 // nparts)], capture_output=True, text=True, errors="replace", env=env, timeout=1500)
+    judge("DER decoders on all inputs of length <= 3 (first octet %d..%d)" % (part * 256 // nparts, (part + 1) * 256 // nparts - 1), p)
+    for l in p.stdout.splitlines():
+        if l.startswith("exhaustive"):
+            ctx.count(int(l.split()[1]))
+    names = sorted(c08.TARGETS)
+    mine = [n for i, n in enumerate(names) if i % nparts == part]
+    if mine:
+        x = ctx.x
+        x.reset()
+        S, M = c08.seeds_and_mutants(x, random.Random(12345), 300 if ctx.tier == "quick" else 3000)
+        x.reset()
+        for name in mine:
+            work = tempfile.mkdtemp(prefix="c07dec_", dir=os.path.join(os.path.dirname(d), ""))
+            try:
+                for i, b in enumerate(S[name] + M[name]):
+                    open(os.path.join(work, "%04d" % i), "wb").write(b)
+                p = subprocess.run([os.path.join(d, "fz_" + name), work, "-runs=0", "-max_len=%d" % c08.TARGETS[name][2], "-rss_limit_mb=2048", "-timeout=25"],
+                                   capture_output=True, text=True, errors="replace", env=env, timeout=1500, cwd=work)
+                judge("decoder family %s on %d structure-aware inputs" % (name, len(S[name] + M[name])), p)
+                ctx.count(len(S[name] + M[name]))
+                ctx.nontrivial("decoders", name)
+            finally:
+                shutil.rmtree(work, ignore_errors=True)
+    ctx.cls("decoders_part")
+
+
 def tests(tier):
     from props import c01, c02, c03, c05, c06, c10, c11, c13
-    out = []
+    out = [Sweep("decoders", sweep_decoders, 16, ("asan",))]
 
     def take(mod, pfx, names, cfgs, scale):
         for t in getattr(mod, "own_tests", mod.tests)(tier):
